@@ -260,3 +260,55 @@ impl MainState {
         broadcast use group_hash_axioms, bridge;
 //@end
 }
+
+// ---- CAP negotiation (C03) ----
+//@type command.rs enum CapCommand
+impl CapState {
+//@fn state/structs.rs CapState::apply_cap unit=conn props=C03
+//@spec
+        ensures r ==> final(self).multi_prefix, !r ==> *final(self) == *old(self), // @prop C03
+//@end
+}
+// ASSUMED stand-in for `cs.iter().all(|c| new_caps.apply_cap(c))` (closure mutating its capture): applies the capabilities in order
+#[verifier::external_body]
+pub fn verif_apply_all_caps(caps: &mut CapState, cs: &Vec<&str>) -> (r: bool) { unimplemented!() }
+// ASSUMED stand-in for `cs.join(" ")`
+#[verifier::external_body]
+pub fn verif_join_space(cs: &Vec<&str>) -> (r: String) { unimplemented!() }
+pub broadcast axiom fn ax_display_capstate(e: CapState, f: &std::fmt::Formatter<'_>)
+    ensures #[trigger] <CapState as DisplaySpec>::fmt_req(&e, f);
+
+impl MainState {
+//@fn state/conn_cmds.rs MainState::process_cap unit=conn props=C03,C05 rules=R1,R2,R3,R6q,R11
+//@replace ~|cs\.iter\(\)\.all\(\|c\| new_caps\.apply_cap\(c\)\)| => verif_apply_all_caps(&mut new_caps, cs)
+//@replace ~|cs\.join\(" "\)| => verif_join_space(cs)
+//@callargs authenticate state,+Tracked(sig)
+//@spec
+        requires
+            mainstate_wf(*self), state_wf(*old(state)),
+            !old(conn_state).user_state.authenticated ==> conn_pre(*old(conn_state), *old(state)),
+            old(conn_state).user_state.authenticated ==> conn_ok(*old(conn_state), *old(state)),
+        ensures
+            // CAP LS / CAP REQ open the negotiation: registration cannot complete until CAP END
+            (subcommand is LS || subcommand is REQ) ==> final(conn_state).caps_negotation && vs_same(*final(state), *old(state)) // @prop C03
+                && final(conn_state).user_state == old(conn_state).user_state,
+            subcommand is LIST ==> conn_same_but_stream(*final(conn_state), *old(conn_state)) && vs_same(*final(state), *old(state)), // @prop C03
+            // CAP END closes it and tries to complete the registration
+            subcommand is END ==> !final(conn_state).caps_negotation, // @prop C03
+            subcommand is END && old(conn_state).user_state.authenticated ==> vs_same(*final(state), *old(state)), // @prop C02
+            !final(conn_state).user_state.authenticated ==> vs_same(*final(state), *old(state)) && conn_pre(*final(conn_state), *final(state)), // @prop C02,C03
+            final(conn_state).user_state.authenticated && !old(conn_state).user_state.authenticated ==> conn_ok(*final(conn_state), *final(state)) && subcommand is END, // @prop C03
+            sym(*final(state)), // @prop C04,C05
+            chans_wf(*final(state)), // @prop C04,C08
+            no_empty_chan(*final(state)), // @prop C16
+            wallops_wf(*final(state)), // @prop C11,C06,C05
+            counters_wf(*final(state)), // @prop C19
+            senders_distinct(*final(state)), // @prop C02,C01
+//@open
+        broadcast use group_hash_axioms, bridge, ax_display_capstate;
+        proof {
+            assert forall|n: VolatileState| #![trigger state_wf(n)] #![trigger sym(n)] #![trigger chans_wf(n)] #![trigger no_empty_chan(n)] #![trigger wallops_wf(n)] #![trigger counters_wf(n)] #![trigger senders_distinct(n)]
+                vs_same(n, *old(state)) implies state_wf(n) by { lemma_vs_same_wf(*old(state), n); }
+        }
+//@end
+}
